@@ -393,7 +393,7 @@ impl FileSpec {
 
     // sort key for log files: name without suffix(es) and restart extension, restart number
     // (0 if there is no restart extension), full name
-    fn sort_key(&self, path: &Path) -> (String, usize, PathBuf) {
+    pub(crate) fn sort_key(&self, path: &Path) -> (String, usize, PathBuf) {
         let name = path
             .file_name()
             .map(|s| s.to_string_lossy().to_string())
